@@ -9,7 +9,7 @@
 (* at the end its outcome is compared with what the library produced, and   *)
 (* the properties' formulas are evaluated on the LOGGED outcome.            *)
 (***************************************************************************)
-EXTENDS AyEval, Props_Eval, Json, IOUtils, TLCExt
+EXTENDS AyEval, Props_Eval, Props_C07, Json, IOUtils, TLCExt
 
 CONSTANT Prop
 
@@ -25,10 +25,12 @@ RECURSIVE PlainOfJ(_)
 PlainOfJ(j) == Plain(j.k, j.v, [i \in 1..Len(j.ch) |-> <<j.ch[i][1], PlainOfJ(j.ch[i][2])>>])
 
 T == Traces[tid]
-LTree == NodeOfJ(T.tree)
+\* the tree the library evaluated: the deep copy Config makes of the merged tree (both are logged)
+LSource == NodeOfJ(T.tree)
+LTree == NodeOfJ(T.copytree)
 
 TInit == EInit /\ tid \in 1..Len(Traces)
-TStart == status = "idle" /\ Start(LTree) /\ UNCHANGED tid
+TStart == status = "idle" /\ StartOn(LTree) /\ UNCHANGED tid
 TStep == EStep /\ UNCHANGED tid
 TNext == TStart \/ TStep
 
@@ -36,7 +38,16 @@ TNext == TStart \/ TStep
 LStatus  == T.status
 LIds     == {<<T.ids[i][1], T.ids[i][2]>> : i \in DOMAIN T.ids}
 LData    == PlainOfJ(T.data)
-LCalls   == [i \in DOMAIN T.calls |-> [p |-> T.calls[i][1], fn |-> T.calls[i][2], args |-> <<>>]]
+LCalls   == [i \in DOMAIN T.calls |-> [p |-> T.calls[i][1], fn |-> T.calls[i][2],
+                                       args |-> [a \in DOMAIN T.calls[i][3] |-> <<T.calls[i][3][a][1], PlainOfJ(T.calls[i][3][a][2])>>]]]
+RECURSIVE SDofJ(_)
+SDofJ(j) == [j EXCEPT !.md = {<<j.md[x][1], j.md[x][2]>> : x \in DOMAIN j.md},
+                      !.ch = [i \in 1..Len(j.ch) |-> <<j.ch[i][1], SDofJ(j.ch[i][2])>>]]
+LDocs    == [i \in DOMAIN T.docs |-> SDofJ(T.docs[i])]
+LSafes   == [i \in DOMAIN T.safes |-> T.safes[i]]
+LStages  == [i \in DOMAIN T.stages |-> NodeOfJ(T.stages[i])]
+MCallsData == [i \in 1..Len(calls) |-> [p |-> calls[i].p, fn |-> calls[i].fn,
+                                         args |-> [a \in 1..Len(calls[i].args) |-> <<calls[i].args[a][1], ValData(heap, calls[i].args[a][2])>>]]]
 LClasses == {{T.classes[i][j] : j \in DOMAIN T.classes[i]} : i \in DOMAIN T.classes}
 LEv      == [i \in DOMAIN T.ev |-> T.ev[i]]
 
@@ -51,7 +62,8 @@ MCallPaths == [i \in 1..Len(calls) |-> calls[i].p]
 
 \* first clause on which library and specification disagree ("ok" if none)
 Compare ==
-    IF status # LStatus THEN "status"
+    IF DeepCopy(LSource) # LTree THEN "copy"          \* the specification's deepcopy vs. copy.deepcopy (flags included)
+    ELSE IF status # LStatus THEN "status"
     ELSE IF status # "done" THEN "ok"
     ELSE IF MData # LData THEN "data"
     ELSE IF MClasses # LClasses THEN "identity"
@@ -69,6 +81,10 @@ PropVerdict ==
                                  /\ C10_SameObject(LTree, LStatus, LIds) THEN "holds" ELSE "violated"
       [] Prop = "C11" -> IF LStatus # "done" THEN "outside"
                          ELSE IF C11_Mirror(LTree, LStatus, LData) /\ T.lifecycle = "ok" THEN "holds" ELSE "violated"
+      [] Prop = "C07" -> IF ~C07_InDomain(LDocs, LSafes) THEN "outside"
+                         ELSE IF /\ C07_TaintSound(LTree, LDocs, LSafes)
+                                 /\ (LStatus \in {"done", "EvalError", "UnsafeError"} => C07_EvalHolds(LTree, LStatus, LCalls, LDocs, LSafes))
+                              THEN "holds" ELSE "violated"
       [] OTHER -> "none"
 
 ModelVerdict ==
@@ -76,6 +92,8 @@ ModelVerdict ==
       [] Prop = "C10" -> IF /\ C10_AtMostOnce(calls) /\ C10_OnlyExisting(work, calls) /\ C10_ExactlyOnce(work, status, calls)
                             /\ C10_OrderFree(work, status, MData) /\ C10_SameObject(work, status, MIds) THEN "holds" ELSE "violated"
       [] Prop = "C11" -> IF C11_Mirror(work, status, MData) THEN "holds" ELSE "violated"
+      [] Prop = "C07" -> IF (C07_InDomain(LDocs, LSafes) => C07_TaintSound(DeepCopy(LSource), LDocs, LSafes))
+                            /\ C07_EvalHolds(work, status, MCallsData, LDocs, LSafes) THEN "holds" ELSE "violated"
       [] OTHER -> "none"
 
 Report == ETerminal => PrintT(<<"TRACE", T.tid, Compare, PropVerdict, ModelVerdict, "">>)
